@@ -55,23 +55,58 @@ def cellStep (cells : List (List Int)) (sch : RunScheme) (f : Rate (Arr K)) (dt 
     Option (List K) :=
   some (readCells cells (wholeStep sch f dt (ofCells cells s) t))
 
+/-- implicit.py `implicit_step` on `state.data` with a cell-coupling right-hand side: predictor, then the fixed-point
+loop `Solvers.fixpointLoop` over `Solvers.implicitIter` at the padded-array type; `none` = `ConvergenceError` -/
+def cellImplicitStep [HasNormSq K] [LT K] [DecidableLT K] (cells : List (List Int)) (f : Rate (Arr K))
+    (maxiter : Nat) (maxerror dt : K) (s : List K) (t : K) : Option (List K) :=
+  match fixpointLoop
+      (fun xs => readCells cells (implicitIter f (fun _ => dt) (fun _ => t) (ofCells cells s) (ofCells cells xs)))
+      (maxerror * maxerror) maxiter
+      (readCells cells (implicitPredict f (fun _ => dt) (fun _ => t) (ofCells cells s))) 0 with
+  | none => none
+  | some (ys, _) => some ys
+
+/-- crank_nicolson.py `crank_nicolson_step` on `state.data` (`α` = `explicit_fraction`) -/
+def cellCNStep [HasNormSq K] [LT K] [DecidableLT K] (cells : List (List Int)) (f : Rate (Arr K)) (α : K)
+    (maxiter : Nat) (maxerror dt : K) (s : List K) (t : K) : Option (List K) :=
+  match fixpointLoop
+      (fun xs => readCells cells
+        (cnIter (fun _ => α) f (fun _ => dt) (fun _ => t) (ofCells cells s) (ofCells cells xs)))
+      (maxerror * maxerror) maxiter
+      (readCells cells (cnIter (fun _ => α) f (fun _ => dt) (fun _ => t) (ofCells cells s) (ofCells cells s))) 0 with
+  | none => none
+  | some (ys, _) => some ys
+
+/-- the fixed-step solvers of the run model -/
+inductive RunSolver (K : Type)
+  | explicit (sch : RunScheme)
+  | implicit (maxiter : Nat) (maxerror : K)
+  | crankNicolson (α : K) (maxiter : Nat) (maxerror : K)
+
+def solverStep [HasNormSq K] [LT K] [DecidableLT K] (cells : List (List Int)) (sol : RunSolver K) (f : Rate (Arr K))
+    (dt : K) (s : List K) (t : K) : Option (List K) :=
+  match sol with
+  | .explicit sch => cellStep cells sch f dt s t
+  | .implicit mi me => cellImplicitStep cells f mi me dt s t
+  | .crankNicolson α mi me => cellCNStep cells f α mi me dt s t
+
 /-- the run `fixed_stepper(state, t_start, t_end)`: new `state.data` and the returned time -/
-def cellRun [LT K] [DecidableLT K] [LE K] [DecidableLE K] [HasFloor K]
-    (cells : List (List Int)) (sch : RunScheme) (f : Rate (Arr K)) (dt ts te : K) (s : List K) : Option (List K × K) :=
-  fixedStepper (cellStep cells sch f dt) dt ts te s
+def solverRun [HasNormSq K] [LT K] [DecidableLT K] [LE K] [DecidableLE K] [HasFloor K]
+    (cells : List (List Int)) (sol : RunSolver K) (f : Rate (Arr K)) (dt ts te : K) (s : List K) : Option (List K × K) :=
+  fixedStepper (solverStep cells sol f dt) dt ts te s
 
 /-- `Controller.run` without trackers: `while t < t_end - atol: t = stepper(state, t, t_end)` (`atol = 1e-6 dt`); a call of
 the stepper makes `stepCount` (a rounding) steps, so the loop may call it again.  `fuel` bounds the number of calls;
 returns `state.data`, the final time and the total number of steps -/
-def cellRuns [LT K] [DecidableLT K] [LE K] [DecidableLE K] [HasFloor K]
-    (cells : List (List Int)) (sch : RunScheme) (f : Rate (Arr K)) (dt te atol : K) :
+def solverRuns [HasNormSq K] [LT K] [DecidableLT K] [LE K] [DecidableLE K] [HasFloor K]
+    (cells : List (List Int)) (sol : RunSolver K) (f : Rate (Arr K)) (dt te atol : K) :
     Nat → K → List K → Nat → Option (List K × K × Nat)
   | 0, t, s, k => some (s, t, k)
   | fuel + 1, t, s, k =>
     if t < te - atol then
-      match cellRun cells sch f dt t te s with
+      match solverRun cells sol f dt t te s with
       | none => none
-      | some (s', t') => cellRuns cells sch f dt te atol fuel t' s' (k + stepCount dt t te)
+      | some (s', t') => solverRuns cells sol f dt te atol fuel t' s' (k + stepCount dt t te)
     else some (s, t, k)
 
 /-! ### the right-hand sides -/
